@@ -377,7 +377,7 @@ func (s *JavaFullListener) EnterMethodDeclaration(ctx *parser.MethodDeclarationC
 
 	// check, before your refactor
 	position := core_domain.CodePosition{
-		StartLine:         ctx.GetStart().GetLine(),
+		StartLine:         ctx.Identifier().GetStart().GetLine(), // the line of the column below
 		StartLinePosition: ctx.Identifier().GetStart().GetColumn(), // different
 		StopLine:          ctx.GetStop().GetLine(),
 		StopLinePosition:  ctx.Identifier().GetStart().GetColumn() + len(name),
